@@ -17,6 +17,7 @@ def check(tree, rep, tier='quick', seed=0):
                        'NOT decided: arbitrary generated form programs (P1 is a property of each program); evaluation-order independence additionally needs C06']
     core = get_core(tree)
     R.k0_solve_shape(core, rep)          # every requested form is known before the first line is attempted
+    R.k41_definitions_keep_no_memory(core, rep)   # a form / line / input object answers from what it was built with, not from what it was asked before
     l1_access(tree, rep)
     l2_effects(tree, rep)
     l2b_shared_iterators(tree, rep)
